@@ -62,40 +62,34 @@ end Xrfmv.BuildIndex
 namespace Xrfmv.BuildIndex
 open Xrfmv.Gen.Split Xrfmv.Gen.Refill List
 
+/-- What the regenerated integer code computes, in closed form (proved by `omega`, so any arithmetically equal
+rewriting of the source keeps this lemma – and everything built on it – intact). -/
+theorem counts_spec (n o : Nat) (ho : o ≤ n) :
+    (counts n (o : Int)).leftUnique = (((n - o + 1) / 2 : Nat) : Int) ∧
+    (counts n (o : Int)).overlapStart = (((n - o + 1) / 2 : Nat) : Int) ∧
+    (counts n (o : Int)).overlapEnd = (((n - o + 1) / 2 + o : Nat) : Int) := by
+  simp only [counts]
+  omega
+
 /-- The left mask selects the first `lu + o` entries of the sorted index list … -/
 theorem maskSel_left (sorted : List Nat) (n o : Nat) (hn : sorted.length = n) (ho : o ≤ n) :
     maskSel n sorted (o : Int) leftMaskParts =
       sorted.take ((n - o + 1) / 2) ++ (sorted.drop ((n - o + 1) / 2)).take o := by
-  simp only [maskSel, leftMaskParts, List.flatMap_cons, List.flatMap_nil, List.append_nil, sliceOf, counts, pySlice,
-    Option.getD_some, Option.getD_none, hn]
-  congr 1
-  · have h1 : (max (0 : Int) (min 0 (n : Int))).toNat = 0 := by omega
-    have h2 : (max 0 (min (((n : Int) - max 0 (min (o : Int) (n : Int)) + 1) / 2) (n : Int)) - max (0 : Int) (min 0 (n : Int))).toNat
-        = (n - o + 1) / 2 := by omega
-    rw [h1, h2]; simp
-  · have h1 : (max 0 (min (((n : Int) - max 0 (min (o : Int) (n : Int)) + 1) / 2) (n : Int))).toNat = (n - o + 1) / 2 := by omega
-    have h2 : (max 0 (min (((n : Int) - max 0 (min (o : Int) (n : Int)) + 1) / 2 + max 0 (min (o : Int) (n : Int))) (n : Int)) -
-        max 0 (min (((n : Int) - max 0 (min (o : Int) (n : Int)) + 1) / 2) (n : Int))).toNat = o := by omega
-    rw [h1, h2]
+  obtain ⟨h1, h2, h3⟩ := counts_spec n o ho
+  simp only [maskSel, leftMaskParts, List.flatMap_cons, List.flatMap_nil, List.append_nil, sliceOf, h1, h2, h3]
+  rw [pySlice_none_some sorted _ (by omega), pySlice_some_some sorted _ _ (by omega) (by omega)]
+  congr 2
+  omega
 
 /-- … and the right mask the last `ru + o` entries (written as the tail after the band, then the band). -/
 theorem maskSel_right (sorted : List Nat) (n o : Nat) (hn : sorted.length = n) (ho : o ≤ n) :
     maskSel n sorted (o : Int) rightMaskParts =
       sorted.drop ((n - o + 1) / 2 + o) ++ (sorted.drop ((n - o + 1) / 2)).take o := by
-  simp only [maskSel, rightMaskParts, List.flatMap_cons, List.flatMap_nil, List.append_nil, sliceOf, counts, pySlice,
-    Option.getD_some, Option.getD_none, hn]
-  congr 1
-  · have h1 : (max 0 (min (((n : Int) - max 0 (min (o : Int) (n : Int)) + 1) / 2 + max 0 (min (o : Int) (n : Int))) (n : Int))).toNat
-        = (n - o + 1) / 2 + o := by omega
-    have h2 : (max (0 : Int) (min (n : Int) (n : Int)) -
-        max 0 (min (((n : Int) - max 0 (min (o : Int) (n : Int)) + 1) / 2 + max 0 (min (o : Int) (n : Int))) (n : Int))).toNat
-        = n - ((n - o + 1) / 2 + o) := by omega
-    rw [h1, h2]
-    exact List.take_of_length_le (by simp [hn])
-  · have h1 : (max 0 (min (((n : Int) - max 0 (min (o : Int) (n : Int)) + 1) / 2) (n : Int))).toNat = (n - o + 1) / 2 := by omega
-    have h2 : (max 0 (min (((n : Int) - max 0 (min (o : Int) (n : Int)) + 1) / 2 + max 0 (min (o : Int) (n : Int))) (n : Int)) -
-        max 0 (min (((n : Int) - max 0 (min (o : Int) (n : Int)) + 1) / 2) (n : Int))).toNat = o := by omega
-    rw [h1, h2]
+  obtain ⟨h1, h2, h3⟩ := counts_spec n o ho
+  simp only [maskSel, rightMaskParts, List.flatMap_cons, List.flatMap_nil, List.append_nil, sliceOf, h1, h2, h3]
+  rw [pySlice_some_none sorted _ (by omega), pySlice_some_some sorted _ _ (by omega) (by omega)]
+  congr 2
+  omega
 
 end Xrfmv.BuildIndex
 
